@@ -113,9 +113,10 @@ prop("C11",
 prop("C12",
      level="fault_enumeration", engine="E1+E3",
      tests=[dict(name="TestC12", quick=400, thorough=4000)],
-     rule="rapid-generated mixed histories (<=8 steps, KV in all index modes, structures in KeyVal mode) with one 'bad' transaction of 1-4 state-changing calls inserted at a drawn position, of a drawn kind: function returns an error after k calls (db.Update), explicit Rollback, an oversized entry at a drawn position, an injected write error at EVERY write event of its Commit in turn (each with 0, 7 and 43 bytes written before the error), an injected sync error at every sync event in turn, a read-only transaction calling every mutating API, or calls of every mutating API on the transaction after Commit/Rollback. The bad transaction prefers the keys the history uses and may contain SPop (except for sync faults); after a failed db.Update/db.View the database lock is probed (a write transaction must be able to begin: otherwise DEADLOCK). The bad transaction runs on the main database only; a twin runs the history without it; per-call results and the full observation of main and twin must agree after every step, in the process and after reopen; mutating calls in read-only/finished transactions must return errors; after a sync error the state must equal the twin without the transaction or a second twin that committed it. Non-trivial: the bad transaction contains at least one call that would change the observation (and, for fault kinds, at least one fault plan fired).",
+     rule="rapid-generated mixed histories (<=8 steps, KV in all index modes, structures in KeyVal mode) with one 'bad' transaction of 1-4 state-changing calls inserted at a drawn position, of a drawn kind: function returns an error after k calls (db.Update), explicit Rollback, an oversized entry at a drawn position, an injected write error at EVERY write event of its Commit in turn (each with 0, 7 and 43 bytes written before the error), an injected sync error at every sync event in turn, a read-only transaction calling every mutating API, or calls of every mutating API on the transaction after Commit/Rollback. 8% of the other steps are Merge calls on every database (what the bad transaction left in the segments must not be brought to life). The bad transaction prefers the keys the history uses and may contain SPop (except for sync faults); after a failed db.Update/db.View the database lock is probed (a write transaction must be able to begin: otherwise DEADLOCK). The bad transaction runs on the main database only; a twin runs the history without it; per-call results and the full observation of main and twin must agree after every step, in the process and after reopen; mutating calls in read-only/finished transactions must return errors; after a sync error the state must equal the twin without the transaction or a second twin that committed it. Non-trivial: the bad transaction contains at least one call that would change the observation (and, for fault kinds, at least one fault plan fired).",
      assumptions=["a failed write leaves the record physically incomplete (if the omitted suffix is all zero bytes the torn prefix is shortened, because the zero-filled segment would already hold the complete record)",
-                  "known finding sparse-index-files-not-crash-consistent: I/O-fault cases run in KeyOnly instead of sparse mode (counted under excluded)"],
+                  "known finding sparse-index-files-not-crash-consistent: I/O-fault cases run in KeyOnly instead of sparse mode (counted under excluded)",
+                  "known finding c15-merge-list-duplication: histories with Merge steps run without their list calls (counted under excluded)"],
      technique="twin-database differential testing with exhaustive fault-point enumeration per generated commit")
 
 prop("C13",
